@@ -2,6 +2,13 @@
 // The Subprocess object is assembled from the default constructor plus its (protected) fields: the pipe()/fork() constructor
 // uses std::set (out-of-line libstdc++ tree code, no model) and its child branch cannot be encoded anyway.
 #include "wrap.hh"
+#ifndef VERIF_NATIVE_REAL
+// solver build only: std::set (used by the Subprocess constructor for three descriptors) is libstdc++'s out-of-line red-black
+// tree, for which there is no model; shim_set.hh is a fixed-capacity sorted array with the same interface subset. The real
+// build (translation validation, replays) uses libstdc++'s std::set.
+#define _GLIBCXX_SET 1
+#include "shim_set.hh"
+#endif
 #include <algorithm>
 #include <deque>
 #include <functional>
@@ -52,4 +59,21 @@ WEXPORT int64_t w_communicate(int stdin_fd, int stdout_fd, int pid, const uint8_
     st[2] = sp.stdout_read_fd;
   }
   return r;
+}
+
+// run_process with a one-word command line. st[0] = exit_status of the result, st[1] / st[2] = sizes of stdout / stderr contents.
+WEXPORT int64_t w_run_process(const uint8_t* in, size_t in_n, int has_stdin, int check, uint64_t timeout_usecs,
+    uint8_t* out, size_t out_cap, uint8_t* err, size_t err_cap, int64_t* st) {
+  try {
+    std::vector<std::string> cmd;
+    cmd.emplace_back("c");
+    std::string input(reinterpret_cast<const char*>(in), in_n);
+    SubprocessResult r = run_process(cmd, has_stdin ? &input : nullptr, check != 0, nullptr, nullptr, timeout_usecs);
+    st[0] = r.exit_status;
+    st[1] = static_cast<int64_t>(r.stdout_contents.size());
+    st[2] = static_cast<int64_t>(r.stderr_contents.size());
+    if (w_copy_out(r.stdout_contents, out, out_cap) < 0 || w_copy_out(r.stderr_contents, err, err_cap) < 0) return W_CAPACITY;
+    return 0;
+  }
+  W_CATCH_ALL
 }
